@@ -154,7 +154,7 @@ def classify(toks, i):
         return KNOWN_MULTIWORD
     if cur == ':' or prev == ':':
         return KNOWN_CHOICE_COLON
-    if prev == '.' and cur.startswith('&'):
+    if (prev == '.' and cur.startswith('&')) or (cur == '.' and i + 1 < len(toks) and toks[i + 1][0].startswith('&')):
         return KNOWN_FIELD_DOT
     return None
 
